@@ -14,6 +14,93 @@ use syntax::TokenKind;
 
 use crate::common::*;
 
+/// the token definitions of the language (kind = 'literal' or kind = /regex/), as documented by
+/// tokenizer.txt of the pinned revision
+pub const REFERENCE_TOKENS: &str = r####"// This is a DSL I quickly put together to make it easier to
+// make new tokens or alter existing tokens
+Whitespace = /[ \t\r\n]+/                                       |=> 'whitespace'
+// Ideally this would be a literal instead of a regex
+NonBreakingSpace = /\xa0/                                       |=> 'non-breaking space character'
+As = 'as'
+If = 'if'
+Else = 'else'
+While = 'while'
+Loop = 'loop'
+Switch = 'switch'
+In = 'in'
+Distinct = 'distinct'
+Mut = 'mut'
+Extern = 'extern'
+Struct = 'struct'
+Enum = 'enum'
+Comptime = 'comptime'
+Return = 'return'
+Break = 'break'
+Continue = 'continue'
+Defer = 'defer'
+Try = 'try'
+Catch = 'catch'
+Ident = /[A-Za-z_][A-Za-z0-9_]*/                                |=> 'identifier'
+// these basically match numbers that can contain `_`,
+// but must contain a digit as the first char
+Float = /(\d[\d_]*)?\.(\d[\d_]*)+([eE][-+]?(\d[\d_]*)+)?/       |=> 'float'
+Int = /(\d[\d_]*)+([eE](\d[\d_]*)+)?/                           |=> 'integer'
+Hex = /0x[0-9a-fA-F]+/                                          |=> 'hex literal'
+Bin = /0b[01]+/                                                 |=> 'binary literal'
+Bool = /true|false/                                             |=> 'boolean'
+_SingleQuote            |=> '`'`'
+_DoubleQuote            |=> '`"`'
+_Escape                 |=> 'escape sequence'
+_StringContents         |=> 'string'
+Plus = '+'
+Hyphen = '-'
+Asterisk = '*'
+Slash = '/'
+Percent = '%'
+Left = '<'
+DoubleLeft = '<<'
+LeftEquals = '<='
+Right = '>'
+DoubleRight = '>>'
+RightEquals = '>='
+Bang = '!'
+BangEquals = '!='
+And = '&'
+DoubleAnd = '&&'
+Pipe = '|'
+DoublePipe = '||'
+Equals = '='
+DoubleEquals = '=='
+Tilde = '~'
+Comma = ','
+Dot = '.'
+Ellipsis = '...'
+Question = '?'
+Arrow = '->'
+FatArrow = '=>'
+Caret = '^'
+Backtick = '`'
+LParen = '('
+RParen = ')'
+LBrack = '['
+RBrack = ']'
+LBrace = '{'
+RBrace = '}'
+_CommentLeader                  |=> 'comment'
+_CommentContents                |=> 'comment'
+Colon = ':'
+Semicolon = ';'
+Hash = '#'
+Error                           |=> 'an unrecognized token'
+// The string/char doesn't have to end on a quote, this results in better error messages
+// this will internally get replaced by _SingleQuote, _Escape, and _StringContents
+__InternalString = /"([^"\\\n]|\\.)*"?/
+// this will internally get replaced by _DoubleQuote, _Escape, and _StringContents
+__InternalChar = /'([^'\\\n]|\\.)*'?/
+// this will internally get replaced by _CommentLeader and _CommentContents
+__InternalComment = ///.*/
+"####;
+
 pub struct KindTable {
     /// Debug name of the TokenKind -> matcher
     literal: BTreeMap<String, String>,
@@ -24,8 +111,10 @@ pub struct KindTable {
 
 impl KindTable {
     pub fn load() -> Self {
-        let text = std::fs::read_to_string("/repo/tokenizer.txt")
-            .unwrap_or_else(|e| machinery_failure(&format!("cannot read tokenizer.txt: {e}")));
+        // the reference is a copy of the language's token definitions, *not* the file in /repo:
+        // the oracle must not move when the code under test (which is generated from
+        // /repo/tokenizer.txt) is changed
+        let text = REFERENCE_TOKENS.to_string();
         let mut literal = BTreeMap::new();
         let mut regex = BTreeMap::new();
         let mut reserved_words = BTreeSet::new();
@@ -391,7 +480,7 @@ pub fn run(args: &Args) -> ! {
     samples.insert(0, "\"\" -> (no tokens)".into());
     report.set("samples", samples);
     report.assumptions = vec![
-        "the kind/text table is derived from /repo/tokenizer.txt at run time; the pattern syntax of logos and of the regex crate agree on these patterns".into(),
+        "the kind/text table is a reference copy of the language's token definitions (tokenizer.txt of the pinned revision) embedded in the harness; the pattern syntax of logos and of the regex crate agree on these patterns".into(),
         "empty CommentContents tokens after a bare `//` are counted, not reported: the statement allows empty tokens".into(),
     ];
     report.failures = total.failures;
